@@ -1,12 +1,20 @@
 import CnlDriver.C01
 import CnlModel.Wrap
+import CnlModel.ElasticNarrow
 /-! `C04` table proper is in CnlDriver.C01.  `C04w`: `wrap`/`unwrap` and `from_rep`/`to_rep` are exact inverses.
 
     C04w wrap <T> <V> <v> => <wrap<T>(v)>|<unwrap(wrap<T>(v))>|<wrap<T>(unwrap(wrap<T>(v)))>
     C04w rep  <T> <V> <v> => <from_rep<T>(v)>|<to_rep(from_rep<T>(v))>|<from_rep<T>(to_rep(from_rep<T>(v)))>
 
 Oracle (the property's last sentence): the second field is the argument itself (type and value) whenever the first
-field holds the argument's value; the third field equals the first. -/
+field holds the argument's value; the third field equals the first.
+
+    C04w ecvt <Src> <Dst> <v> => <Dst>:<innermost value of static_cast<Dst>(Src holding representation v)>
+
+`Src` a `scaled_integer` over an `elastic_integer` or over a native-rounding nest around one, `Dst` such a type or a built-in
+integer (model `CnlModel.ElasticNarrow`).  Oracle: the result has the destination type and holds the source value truncated
+toward zero at the destination's resolution, checked by multiplication (`ElasticNarrow.TruncTo`), exact when digits are added;
+unconstrained when the destination cannot hold that value. -/
 namespace Cnl.Drv
 open Cnl
 
@@ -50,6 +58,32 @@ def checkC04w (toks : List String) (res : String) : Option Verdict :=
       let x2 ← Wrap.fromRep T r
       pure (showNum x ++ "|" ++ showTV r ++ "|" ++ showNum x2)
     some { model := m.getD "ILL(not modelled)", spec := c04wOracle (c04wPure T && T.depth > 0) V v res, branch := "rep" }
+  | ["ecvt", st, dt, v] => do
+    let S ← parseTy st; let D ← parseTy dt; let v ← v.toInt?
+    let (rep, eS) ← (match S with | .sc r e 2 => some (r, e) | _ => none)
+    let eD ← ElasticNarrow.expOf D
+    let (n, _) ← ElasticNarrow.elInfo rep
+    let k := eD - eS
+    let m := ElasticNarrow.convert S D v
+    -- the oracle: type and value fields of the implementation's result
+    let parts := res.splitOn ":"
+    let exactFits : Bool := m.isSome
+    let spec : Option Bool :=
+      if !exactFits then none else
+      match parts with
+      | [t, r] =>
+        match r.toInt? with
+        | some r =>
+          some (t == dt &&
+            (if 0 ≤ k then decide (ElasticNarrow.TruncTo v k.toNat r) else r == v * 2 ^ (-k).toNat))
+        | none => some false
+      | _ => some false
+    let word : Int := if n ≤ 7 then 8 else if n ≤ 15 then 16 else if n ≤ 31 then 32 else if n ≤ 63 then 64 else 128
+    let kind := (match rep with | .el _ _ => "elastic" | .ov (.el _ (.int _)) _ => "safe" | _ => "static_number")
+    some { model := (m.map showNum).getD "ILL(not modelled)", spec := spec,
+           branch := "ecvt/" ++ kind ++ (match D with | .int _ => "->int" | _ => "->scaled") ++
+             (if k ≤ 0 then "/widen" else if k ≥ word then "/drops>=word" else if k ≥ (n : Int) then "/drops-all-digits" else "/narrow"),
+           nontrivial := k > 0 }
   | _ => none
 
 end Cnl.Drv
